@@ -58,6 +58,11 @@ var c09Exec = [][2]string{
 	{`{{ include "/ret.jet" }}`, "r3"},
 	{`{{ block bb() }}{{ return "r1" }}{{ end }}`, ""},
 	{`{{ x := "r1" }}{{ return x }}`, "r1"},
+	{`{{ try }}{{ fail() }}{{ catch }}{{ return "r1" }}{{ end }}`, "r1"},
+	{`{{ try }}{{ fail() }}{{ catch e }}{{ return "r1" }}{{ end }}tail`, "r1"},
+	{`{{ return "r0" }}{{ try }}{{ fail() }}{{ catch }}c{{ end }}`, "r0"},
+	{`{{ range s }}{{ if . == "e2" }}{{ return . }}{{ end }}{{ end }}`, "e2"},
+	{`{{ yield rb() }}`, ""},
 }
 
 // H_C09_exec: exec runs a template like include but discards all of its output (text,
@@ -69,11 +74,12 @@ var c09Exec = [][2]string{
 func H_C09_exec() {
 	c := ndChoice("tmpl", len(c09Exec))
 	chain := ndChoice("chain", 3)
-	body := `noise<{{ "x" }}{{ try }}t{{ end }}` + c09Exec[c][0]
+	body := `{{ import "/rblib.jet" }}noise<{{ "x" }}{{ try }}t{{ end }}` + c09Exec[c][0]
 	files := []string{
 		"/main.jet", `{{ block own() }}O{{ end }}[{{ exec("/e.jet") }}]after{{ yield own() }}`,
 		"/plain.jet", `p`,
 		"/ret.jet", `{{ return "r3" }}`,
+		"/rblib.jet", `{{ block rb() }}{{ return "inblock" }}{{ end }}`,
 	}
 	switch chain {
 	case 0:
@@ -86,6 +92,7 @@ func H_C09_exec() {
 	set := hxSet(nil, files...)
 	vars := make(VarMap)
 	vars.Set("s", []string{"e1", "e2"})
+	vars.SetFunc("fail", hxFail)
 	out, err := hxExec(set, "/main.jet", vars, nil)
 	vfReach("returned")
 	vfAssert(err == nil, "renders")
@@ -151,4 +158,19 @@ func H_C09_includeIfExists() {
 		vfReach("missing")
 		vfAssert(out == "OWN[N]DOWN", "missing template renders nothing; evaluates to false")
 	}
+}
+
+// H_C09_brokenTarget: include / exec / includeIfExists of a template that exists but
+// does not parse is an error (not "missing"), on the first call and on a repeated one.
+//
+//gosym:reach failed
+func H_C09_brokenTarget() {
+	form := ndChoice("form", 3)
+	calls := []string{`{{ include "/broken.jet" }}`, `{{ exec("/broken.jet") }}`, `{{ if includeIfExists("/broken.jet") }}Y{{ else }}N{{ end }}`}
+	set := hxSet(nil, "/main.jet", `A`+calls[form]+`B`, "/broken.jet", `x{{ if }}`)
+	_, err := hxExec(set, "/main.jet", nil, nil)
+	vfReach("failed")
+	vfAssert(err != nil, "a template that exists but cannot be parsed is an error")
+	_, err2 := hxExec(set, "/main.jet", nil, nil)
+	vfAssert(err2 != nil, "... also when asked again")
 }
